@@ -1,21 +1,63 @@
 /-
   C12 — Incentive flows are fully funded and fully returned.
-  Property theorems only (helpers in WW/Proofs/{Claim,Flows}.lean). Model: `WW.Inc.step` (engine
+  Property theorems only (helpers in WW/Proofs/{Claim,Flows,Ledger,FlowSums,ClaimLedger,PosDelta,HistKeys,
+  FlowDelta,FlowBacked,Backed,Custody,CustodyHist,FlowExact}.lean). Model: `WW.Inc.step` (engine
   `incentive`), following the repaired code (F4, F5, expand_flow TransferFrom dispatched, reset default).
 -/
-import WW.Proofs.Snapshot
+import WW.Proofs.FlowExact
 namespace WW.C12
 open WW WW.Gen WW.Inc
 
-/-- Full-strength backing statement (per reward asset `a`): what the contract holds covers the flows'
-    funded − claimed (plus the staked LP when `a` is the LP asset).
-    NOT proved as a whole-history theorem (missing: the induction through `claimFlows` — the transfer
-    messages add up to the increase of `claimed` — and the `open_flow` ledger case analysis). It is
-    evaluated after every operation of every generated history on the real contracts by the monitor
-    `C12:flow_backed`; the theorems below are the per-operation facts that induction consists of. -/
+/-- Backing statement (per reward asset `a`): what the contract holds covers the flows'
+    funded − claimed (plus the staked LP when `a` is the LP asset). Proved for every history by
+    `flow_backed` below; also evaluated after every operation of every generated history on the real
+    contracts by the monitor `C12:flow_backed`. -/
 def FlowBacked (s : St) (a : Nat) (staked : Nat) : Prop :=
   ((s.flows.filter (fun f => f.asset = a)).map (fun f => f.funded - f.claimed)).sum
     + (if a = 0 then staked else 0) ≤ balOf s INC a
+
+/-- **flow_backed**, over ALL histories: whatever sequence of operations (by any senders other than the
+    contract itself, at any epochs and times, with any funds / allowances attached, failed operations
+    included) is applied to a freshly instantiated contract, for EVERY asset `a` the contract's balance
+    covers the unclaimed funds `funded − claimed` of all flows denominated in `a` — plus, when `a` is the
+    LP asset, everything staked (all open and closed positions of all addresses). -/
+theorem flow_backed (c : Cfg) (e0 : Nat) (bal : Bal) (ops : List (Env × Op)) (hs : SendersOk ops) (a : Nat) :
+    FlowBacked (reach c (init e0 bal) ops) a (staked (reach c (init e0 bal) ops)) := by
+  have h := (reach_backed (c := c) (init_WInv e0 bal) (init_FInv e0 bal) (init_backed e0 bal) ops hs).2 a
+  unfold owed at h
+  rw [ffSum_eq] at h
+  exact h
+
+/-- the same as a one-step statement from any state satisfying the invariants -/
+theorem flow_backed_step {c : Cfg} {s s' : St} {e : Env} {op : Op} (hW : WInv s) (hF : FInv s)
+    (hB : ∀ a, FlowBacked s a (staked s)) (hs : e.sender ≠ INC) (h : step c s e op = .ok s') (a : Nat) :
+    FlowBacked s' a (staked s') := by
+  have hB' : Backed s := by
+    intro a; have := hB a; unfold FlowBacked at this; unfold owed; rw [ffSum_eq]; exact this
+  have h := (step_backed hW hF hB' hs h).2 a
+  unfold owed at h
+  rw [ffSum_eq] at h
+  exact h
+
+/-- **claims_le_funded**, over ALL histories (no assumption at all on senders, epochs or funds): no
+    flow's claimed amount ever exceeds its funded amount (the latest expanded amount, or the original one);
+    in particular `expand_flow` (including its reset branch) never drops funded below claimed. Flow ids are
+    distinct and never reused. -/
+theorem claims_le_funded (c : Cfg) (e0 : Nat) (bal : Bal) (ops : List (Env × Op)) :
+    (∀ f ∈ (reach c (init e0 bal) ops).flows, f.claimed ≤ f.funded)
+    ∧ (flowIds (reach c (init e0 bal) ops).flows).Nodup
+    ∧ (∀ f ∈ (reach c (init e0 bal) ops).flows, f.id ≤ (reach c (init e0 bal) ops).flowCounter) := by
+  have h := reach_FInv (c := c) (init_WInv e0 bal) (init_FInv e0 bal) ops
+  exact ⟨h.claimed_le, h.ids_nodup, h.ids_le⟩
+
+/-- … and a whole claim pays, per asset, exactly the total increase of the claimed amounts of the flows
+    in that asset, and pulls nothing: `Σ_flows(funded − claimed)` after + paid out = before. -/
+theorem claim_pays_exactly_increase {s : St} {u epoch : Nat} {fl' : List Flow} {msgs : List Msg} (hu : u ≠ INC)
+    (hle : ∀ f ∈ s.flows, f.claimed ≤ f.funded) (h : claimFlows s u epoch s.flows = .ok (fl', msgs)) (a : Nat) :
+    ffSum a fl' + outsOf INC a msgs = ffSum a s.flows ∧ insOf INC a msgs = 0
+    ∧ (∀ x ∈ msgs, ∃ asset amt, x = Msg.send INC u asset amt) := by
+  obtain ⟨_, c2, c3, c4⟩ := claimFlows_ledger _ _ _ h
+  exact ⟨(c2 hle).2 hu a, c3 hu a, c4⟩
 
 /-- **close_auth**: only the flow's creator or the factory owner can close a flow. -/
 theorem close_auth {c : Cfg} {s s' : St} {e : Env} {id : Nat} (hoff : e.offers = [])
@@ -38,8 +80,7 @@ theorem close_returns_exact {c : Cfg} {s s' : St} {e : Env} {id : Nat} (hoff : e
 
 /-- **claims_le_funded** (claim side): one iteration of the claim loop never lets the flow's claimed
     amount exceed the flow's expanded funded amount, and pays out exactly the increase.
-    `_partial`: the whole-history statement additionally needs that `expand_flow` never lowers the
-    funded amount below `claimed` (true on monotone epochs; not proved). -/
+    (Per-iteration form kept from the first version; the whole-history statement is `claims_le_funded`.) -/
 theorem claims_le_funded_partial {s : St} {u expAmt expEnd ep : Nat} {st st' : ClaimLoop}
     (hle : st.flow.claimed ≤ expAmt)
     (h : claimEpoch s u expAmt expEnd st ep = .ok (.next st')) :
@@ -48,18 +89,52 @@ theorem claims_le_funded_partial {s : St} {u expAmt expEnd ep : Nat} {st st' : C
         else [Msg.send INC u st.flow.asset (st'.flow.claimed - st.flow.claimed)]) :=
   ⟨claimEpoch_claimed_le hle h, (claimEpoch_le_emission h).2⟩
 
-/-- **open_expand_exact** (expansion, funds side): an accepted expansion of a cw20 flow carries exactly
-    one `TransferFrom` of the stated amount from the sender to the contract (the whole transaction fails
-    if it fails); an accepted expansion of a native flow has exactly the stated amount of the flow's
-    denom — and no other coin — attached.
-    `_partial`: that the flow's funded amount then grows by exactly that amount (asset-history
-    bookkeeping) and the `open_flow` fee/asset case analysis are not proved here; they are checked by
-    the monitors `C12:expand_exact`, `C12:open_exact`, `C12:open_fee_to_collector`. -/
+/-- **open_expand_exact** (expansion, funds side; kept from the first version): an accepted expansion of a
+    cw20 flow carries exactly one `TransferFrom` of the stated amount from the sender to the contract; an
+    accepted expansion of a native flow has exactly the stated amount of the flow's denom — and no other
+    coin — attached. -/
 theorem open_expand_exact_partial {c : Cfg} {e : Env} {a amount : Nat} {m : List Msg}
     (h : expandFlowFunds c e a amount = .ok m) :
     (c.native a = true ∧ fundsOf c e.offers = [(a, amount)] ∧ amount ≠ 0 ∧ m = [])
     ∨ (c.native a = false ∧ amount ≤ aget (allowOf c e.offers) a ∧ m = [.pull e.sender INC a amount]) :=
   expandFlowFunds_spec h
+
+/-- **open_expand_exact** (expand), over ALL epoch-monotone histories: after any history from a fresh
+    contract whose epochs never go back, an accepted `expand_flow` (by a sender other than the contract) of
+    `amt` of flow `id` raises that flow's unclaimed funds `funded − claimed` by exactly `amt` (also through
+    the reset branch, where the unclaimed rest becomes a fresh flow), keeps asset and creator, and raises
+    the contract's balance of the flow asset by exactly `amt`. -/
+theorem open_expand_exact_expand (c : Cfg) (e0 : Nat) (bal : Bal) (ops : List (Env × Op)) (e : Env)
+    (id a amt : Nat) (en : Option Nat) (s' : St)
+    (hep : EpochsFrom e0 (ops ++ [(e, .expandFlow id a amt en)])) (hs : e.sender ≠ INC)
+    (h : step c (reach c (init e0 bal) ops) e (.expandFlow id a amt en) = .ok s') :
+    ∃ f f2, findFlow (reach c (init e0 bal) ops).flows id = some f ∧ findFlow s'.flows id = some f2
+      ∧ f.asset = a ∧ f2.asset = a ∧ f2.creator = f.creator
+      ∧ f2.claimed ≤ f2.funded ∧ f2.funded - f2.claimed = f.funded - f.claimed + amt
+      ∧ balOf s' INC a = balOf (reach c (init e0 bal) ops) INC a + amt := by
+  have hW := reach_WInv (c := c) (init_WInv e0 bal) ops
+  have hF := reach_FInv (c := c) (init_WInv e0 bal) (init_FInv e0 bal) ops
+  have hH : HistLe (init e0 bal) e0 := fun f hf => by cases hf
+  have hH' := reach_HistLe (c := c) e (.expandFlow id a amt en) ops (init e0 bal) e0 (init_WInv e0 bal)
+    (init_FInv e0 bal) hH hep
+  exact step_expandFlow_exact hW hF hH' hs h
+
+/-- **open_expand_exact** (open), over ALL histories: after any history from a fresh contract, an accepted
+    `open_flow` (sender neither the contract nor the fee collector, coins with distinct denoms) records a
+    flow with a fresh id for the sender, with nothing claimed, funded with the declared amount (less the
+    fee when the fee is charged in the flow asset itself); the contract's balance of the flow asset grows
+    by exactly the funded amount and the collector's balance of the fee asset by exactly the fee. -/
+theorem open_expand_exact_open (c : Cfg) (e0 : Nat) (bal : Bal) (ops : List (Env × Op)) (e : Env)
+    (a amt : Nat) (st en : Option Nat) (s' : St)
+    (hs : e.sender ≠ INC) (hsc : e.sender ≠ COLLECTOR) (hn : (keysOf e.offers).Nodup)
+    (h : step c (reach c (init e0 bal) ops) e (.openFlow a amt st en) = .ok s') :
+    ∃ f, findFlow s'.flows ((reach c (init e0 bal) ops).flowCounter + 1) = some f
+      ∧ findFlow (reach c (init e0 bal) ops).flows ((reach c (init e0 bal) ops).flowCounter + 1) = none
+      ∧ f.creator = e.sender ∧ f.asset = a ∧ f.claimed = 0
+      ∧ f.funded = (if c.feeAsset = a then amt - c.feeAmt else amt)
+      ∧ balOf s' INC a = balOf (reach c (init e0 bal) ops) INC a + f.funded
+      ∧ balOf s' COLLECTOR c.feeAsset = balOf (reach c (init e0 bal) ops) COLLECTOR c.feeAsset + c.feeAmt :=
+  step_openFlow_exact (reach_FInv (c := c) (init_WInv e0 bal) (init_FInv e0 bal) ops) hs hsc hn h
 
 /-- non-vacuity: dave opens a native flow of 1 000 000 `ureward` (fee 1000 `uwhale`), expands it by
     500 000, the owner closes it: dave gets 1 500 000 back, the collector keeps the fee, the contract 0 -/
